@@ -100,11 +100,11 @@ Proof.
 Qed.
 
 (* path 1 *)
-Lemma graffiti_checks : forall g,
-  ((lenN (graffiti_of g) =? 32)
-   && match g with GErr | GNoProvider => forallb (N.eqb 0) (graffiti_of g) | GBytes _ => true end) = true.
+Lemma graffiti_checks : forall g nc,
+  ((lenN (graffiti_of g nc) =? 32)
+   && match g with GErr | GNoProvider => forallb (N.eqb 0) (graffiti_of g nc) | GBytes _ => true end) = true.
 Proof.
-  intro g. unfold lenN. rewrite graffiti_of_length. destruct g; reflexivity.
+  intros g nc. unfold lenN. rewrite graffiti_of_length. destruct g; reflexivity.
 Qed.
 
 Lemma asked_from_auction : forall i a,
@@ -121,7 +121,7 @@ Lemma model_satisfies_P_propose : forall i,
   P_propose i (is_panic (snd (propose_now i))) (fst (propose_now i)) = true.
 Proof.
   intro i. unfold P_propose, in_decoder_domain, reaches_signing.
-  pose proof (graffiti_checks (p1_graffiti i)) as Hg. apply andb_true_iff in Hg as [Hg1 Hg2].
+  pose proof (graffiti_checks (p1_graffiti i) (p1_node_client i)) as Hg. apply andb_true_iff in Hg as [Hg1 Hg2].
   unfold propose_now, propose.
   destruct (p1_proposal i) as [p|]; cbn [fst snd is_panic negb orb t_graffiti t_signed t_unblind t_submitted].
   2: { rewrite Hg1, Hg2. reflexivity. }
